@@ -2,8 +2,10 @@
 (***************************************************************************)
 (* C05: `git lfs prune` over the abstract repository.                      *)
 (*                                                                         *)
-(* MustRetain is transcribed from git-lfs-prune(1): the current checkout,  *)
-(* the index, every stash, recent refs inside the retention window         *)
+(* MustRetain is transcribed from git-lfs-prune(1): the current checkout   *)
+(* of every worktree (wt: the branch a linked worktree has checked out;    *)
+(* prune may be run from inside either), the index, every stash, recent    *)
+(* refs inside the retention window                                        *)
 (* (lfs.fetchrecentrefsdays + lfs.pruneoffsetdays, remote-tracking refs    *)
 (* included), and every commit not yet pushed to the prune remote.         *)
 (* Prune may delete ANY subset of local \ MustRetain (the acceptor is      *)
@@ -19,15 +21,17 @@ CONSTANTS RecentDays,    \* fetchrecentrefsdays + pruneoffsetdays (default 7 + 3
 
 VARIABLES staged,   \* path -> blob staged but not committed ("same" = index equals HEAD)
           stashed,  \* oids referenced by stash commits
-          pruned    \* oids deleted by prune (observation); a behaviour ends with its prune
+          pruned,   \* oids deleted by prune (observation); a behaviour ends with its prune
+          wt        \* branch checked out in the linked worktree, "none" when there is none
 VARIABLE done
-pvars == <<rvars, staged, stashed, pruned, done, steps, hist>>
-PView == <<rvars, staged, stashed, done>>
+pvars == <<rvars, staged, stashed, pruned, wt, done, steps, hist>>
+PView == <<rvars, staged, stashed, wt, done>>
 
 Clean == \A p \in Paths : staged[p] = "same"
-PInit == RepoInit /\ staged = [p \in Paths |-> "same"] /\ stashed = {} /\ pruned = {} /\ done = FALSE
+PInit == RepoInit /\ staged = [p \in Paths |-> "same"] /\ stashed = {} /\ pruned = {} /\ wt = "none" /\ done = FALSE
 
 TreeOids(c) == IF c = NoCommit THEN {} ELSE {commits[c].tree[p] : p \in Paths} \cap Oids
+WtOids      == IF wt = "none" THEN {} ELSE TreeOids(br[wt])
 AllRefs     == {br[b] : b \in Branches} \cup {rt[b] : b \in Branches}
 Reachable   == PtrOids(ReachSet(AllRefs, commits), commits)
 \* "Unpushed LFS files" (git-lfs-prune(1)): referenced by a commit a local branch is ahead by,
@@ -42,7 +46,7 @@ RecentOids  == UNION {TreeOids(c) : c \in RecentTips}
 StagedOids  == {staged[p] : p \in Paths} \cap Oids
 
 MustRetain(f) == Unpushed \cup stashed \cup StagedOids
-                 \cup (IF f = "force" THEN {} ELSE TreeOids(br[head]))
+                 \cup (IF f = "force" THEN {} ELSE TreeOids(br[head]) \cup WtOids)
                  \cup (IF f \in {"recent", "force"} THEN {} ELSE RecentOids)
 
 \* ---- dirty state (only on top of a finished history) -----------------------
@@ -50,29 +54,34 @@ Stage(p, o) ==
   /\ br[head] # NoCommit /\ staged[p] = "same" /\ TreeOf(br[head])[p] # o
   /\ staged' = [staged EXCEPT ![p] = o]
   /\ local' = IF local[o] = "absent" THEN [local EXCEPT ![o] = "valid"] ELSE local
-  /\ UNCHANGED <<commits, br, rr, rt, head, server, everRemote, stashed, pruned>>
+  /\ UNCHANGED <<commits, br, rr, rt, head, server, everRemote, stashed, pruned, wt>>
   /\ Log([a |-> "stage", p |-> p, oid |-> o])
 
 Stash(p, o) ==            \* edit p to content o, git stash
   /\ br[head] # NoCommit /\ Clean /\ TreeOf(br[head])[p] \notin {o, "none"}
   /\ stashed' = stashed \cup {o}
   /\ local' = IF local[o] = "absent" THEN [local EXCEPT ![o] = "valid"] ELSE local
-  /\ UNCHANGED <<commits, br, rr, rt, head, server, everRemote, staged, pruned>>
+  /\ UNCHANGED <<commits, br, rr, rt, head, server, everRemote, staged, pruned, wt>>
   /\ Log([a |-> "stash", p |-> p, oid |-> o])
+
+AddWorktree(b) ==        \* git worktree add ../linked b  (a branch can be checked out only once)
+  /\ wt = "none" /\ br[b] # NoCommit /\ b # head /\ wt' = b
+  /\ UNCHANGED <<commits, br, rr, rt, head, local, server, everRemote, staged, stashed, pruned>>
+  /\ Log([a |-> "worktree", b |-> b])
 
 ServerLoses(o) ==
   /\ o \in server /\ server' = server \ {o}
-  /\ UNCHANGED <<commits, br, rr, rt, head, local, everRemote, staged, stashed, pruned>>
+  /\ UNCHANGED <<commits, br, rr, rt, head, local, everRemote, staged, stashed, pruned, wt>>
   /\ Log([a |-> "serverloses", oid |-> o])
 
 Switch(b) ==             \* git checkout b
-  /\ Clean /\ br[b] # NoCommit /\ head # b /\ head' = b
-  /\ UNCHANGED <<commits, br, rr, rt, local, server, everRemote, staged, stashed, pruned>>
+  /\ Clean /\ br[b] # NoCommit /\ head # b /\ b # wt /\ head' = b
+  /\ UNCHANGED <<commits, br, rr, rt, local, server, everRemote, staged, stashed, pruned, wt>>
   /\ Log([a |-> "switch", b |-> b])
 
 \* ---- the verdict action ------------------------------------------------------
-Prune(f) ==
-  /\ f \in PruneFlags /\ br[head] # NoCommit
+Prune(f, from) ==        \* from: the worktree the command is run in ("main" | "linked")
+  /\ f \in PruneFlags /\ br[head] # NoCommit /\ (from = "linked" => wt # "none")
   /\ LET must    == MustRetain(f)
          allowed == LocalPresent \ must
          \* with --verify-remote a reachable object the server lacks halts the command
@@ -80,22 +89,24 @@ Prune(f) ==
          del     == IF f = "dry-run" \/ halts THEN {} ELSE allowed      \* what the current code does (drift layer)
      IN /\ local' = [o \in Oids |-> IF o \in del THEN "absent" ELSE local[o]]
         /\ pruned' = pruned \cup del /\ done' = TRUE
-        /\ Log([a |-> "prune", flags |-> f, mustRetain |-> must \cap LocalPresent, allowed |-> allowed,
+        /\ Log([a |-> "prune", flags |-> f, from |-> from, mustRetain |-> must \cap LocalPresent, allowed |-> allowed,
                 localBefore |-> LocalPresent, reachable |-> Reachable, serverHas |-> server, expectDeleted |-> del])
-  /\ UNCHANGED <<commits, br, rr, rt, head, server, everRemote, staged, stashed>>
+  /\ UNCHANGED <<commits, br, rr, rt, head, server, everRemote, staged, stashed, wt>>
 
 Keep == ~done /\ UNCHANGED done
-Hist == Keep /\ Clean /\ UNCHANGED <<staged, stashed, pruned>>
-PCommit(b, p, blob, g) == Hist /\ Commit(b, p, blob, g)
-PCommitTree(b, t, g)   == Hist /\ CommitTree(b, t, g)
-PMerge(b, o)           == Hist /\ Merge(b, o)
+Hist == Keep /\ Clean /\ UNCHANGED <<staged, stashed, pruned, wt>>
+\* the branch of the linked worktree cannot be checked out (committed to) in the main one
+PCommit(b, p, blob, g) == Hist /\ b # wt /\ Commit(b, p, blob, g)
+PCommitTree(b, t, g)   == Hist /\ b # wt /\ CommitTree(b, t, g)
+PMerge(b, o)           == Hist /\ b # wt /\ Merge(b, o)
 PPush(S)               == Hist /\ Push(S, "git-push", {})
 POtherPush(b)          == Hist /\ OtherPush(b)
 PStage(p, o)           == Keep /\ Stage(p, o)
 PStash(p, o)           == Keep /\ Stash(p, o)
 PServerLoses(o)        == Keep /\ ServerLoses(o)
 PSwitch(b)             == Keep /\ Switch(b)
-PPrune(f)              == ~done /\ Prune(f)
+PWorktree(b)           == Keep /\ AddWorktree(b)
+PPrune(f, from)        == ~done /\ Prune(f, from)
 
 PNext == \/ \E b \in Branches, p \in Paths, blob \in Blobs, g \in Ages : PCommit(b, p, blob, g)
          \/ \E b \in Branches, t \in [Paths -> Oids], g \in Ages : PCommitTree(b, t, g)
@@ -106,19 +117,21 @@ PNext == \/ \E b \in Branches, p \in Paths, blob \in Blobs, g \in Ages : PCommit
          \/ \E p \in Paths, o \in Oids : PStash(p, o)
          \/ \E o \in Oids : PServerLoses(o)
          \/ \E b \in Branches : PSwitch(b)
-         \/ \E f \in PruneFlags : PPrune(f)
+         \/ \E b \in Branches : PWorktree(b)
+         \/ \E f \in PruneFlags, from \in {"main", "linked"} : PPrune(f, from)
 PSpec == PInit /\ [][PNext]_pvars
 
 \* C05 on the design: nothing that must be retained is ever pruned; the unpushed are always safe
-NeverPrunesNeeded == [][\A f \in PruneFlags : Prune(f) => (pruned' \ pruned) \cap MustRetain(f) = {}]_pvars
+NeverPrunesNeeded == [][\A f \in PruneFlags, from \in {"main", "linked"} : Prune(f, from) => (pruned' \ pruned) \cap MustRetain(f) = {}]_pvars
 
 \* Generation: every prune edge whose state has something prunable is emitted; where nothing
-\* is prunable the five flags behave alike on the model, so one flag per state is emitted,
-\* rotated by a key of the state (keeps every history, cuts the output five-fold).
-FlagIdx(f) == CASE f = "none" -> 0 [] f = "dry-run" -> 1 [] f = "recent" -> 2 [] f = "force" -> 3 [] OTHER -> 4
+\* is prunable the flags behave alike on the model, so one flag per state is emitted, rotated by
+\* a key of the state over the three flags under which a wrong deletion would show (a dry run
+\* deletes nothing, and --force with nothing prunable has nothing left to get wrong).
+FlagIdx(f) == CASE f = "none" -> 0 [] f = "verify-remote" -> 1 [] f = "recent" -> 2 [] OTHER -> 9
 StateKey == Len(commits) + Cardinality(LocalPresent) + Cardinality(server) + Cardinality(stashed)
-            + Cardinality({p \in Paths : staged[p] # "same"}) + (IF head = "main" THEN 0 ELSE 1) + EmitSel
+            + Cardinality({p \in Paths : staged[p] # "same"}) + (IF head = "main" THEN 0 ELSE 1) + (IF wt = "none" THEN 0 ELSE 2) + EmitSel
 EmitPrune == LET e == hist'[Len(hist')] IN
-             (Emit /\ e.a = "prune" /\ LocalPresent # {} /\ (e.allowed # {} \/ FlagIdx(e.flags) = StateKey % 5)) =>
+             (Emit /\ e.a = "prune" /\ LocalPresent # {} /\ (e.allowed # {} \/ FlagIdx(e.flags) = StateKey % 3)) =>
                 CSVWrite("%1$s", <<ToJson(hist')>>, IOEnv.OUT)
 =============================================================================
